@@ -1067,12 +1067,12 @@ def run(ctx):
     ctx.assume("pandas sort_values / reset_index / iloc behave as documented; ties between equal scores are outside the property")
     ctx.assume("Tree equality and hashing identify a topology (clades and outliers): decided by C03.I1, used here as the dictionary key")
     ctx.assume("loops are compared on two pseudo-elements per iteration domain (TermFlow unrolling); domains are compared symbolically")
-    rule_A1(ctx)
-    rule_A2(ctx)
-    rule_A3(ctx)
-    rule_A4(ctx)
-    rule_A5(ctx)
-    rule_A6(ctx)
+    ctx.soft(rule_A1)
+    ctx.soft(rule_A2)
+    ctx.soft(rule_A3)
+    ctx.soft(rule_A4)
+    ctx.soft(rule_A5)
+    ctx.soft(rule_A6)
     # "one row per distinct tree (same clades and outliers)": the dictionary is keyed by Tree.__eq__ / __hash__
     # (same rule objects as C03.I1 / I2), whose clade sets come from tree.utils (TS)
     from ..formula import imported
